@@ -343,8 +343,12 @@ def estimator_lane(ctx, thorough):
     # labels
     if fits.KIND[name] == 'pairs':
       P, y = fits.fit_args(name, data)
+      frac = y.astype(float)
+      frac[int(np.flatnonzero(y == 1)[0])] = 1.5            # a single label that is not +-1 but truncates to it
       for lname, yy in (('labels_0_2', np.where(y == 1, 2, 0)), ('labels_nan', np.where(np.arange(len(y)) == 1, np.nan, y.astype(float))),
-                        ('labels_str', np.array(['a', 'b'])[(y == 1).astype(int)]), ('labels_short', y[:-1]), ('labels_long', np.r_[y, 1])):
+                        ('labels_str', np.array(['a', 'b'])[(y == 1).astype(int)]), ('labels_short', y[:-1]), ('labels_long', np.r_[y, 1]),
+                        ('labels_one_1.5', frac), ('labels_-1.9_1.25', np.where(y == 1, 1.25, -1.9)),
+                        ('labels_numeric_strings', np.array(['-1', '1'])[(y == 1).astype(int)])):
         oc, r, ex = outcome(lambda: fits.make_estimator(name, kw).fit(P, yy))
         ctx.count('estimator_methods', 1)
         if oc != 1:
@@ -357,6 +361,7 @@ def estimator_lane(ctx, thorough):
                           ('labels_-2_2', 2 * y), ('labels_0_2', np.where(y == 1, 2, 0)),
                           ('labels_nan', np.where(np.arange(len(y)) == 1, np.nan, y.astype(float))),
                           ('labels_str', np.array(['a', 'b'])[(y == 1).astype(int)]),
+                          ('labels_one_1.5', frac), ('labels_-1.9_1.25', np.where(y == 1, 1.25, -1.9)),
                           ('labels_short', y[:-1]), ('labels_long', np.r_[y, 1]), ('well_formed', y)):
           oc, r, ex = outcome(lambda: est.calibrate_threshold(P, yy, strategy=strat, **skw))
           ctx.count('estimator_methods', 1)
